@@ -1,5 +1,6 @@
 import Aiorpcx.C04.Dumps
 import Aiorpcx.C04.Roundtrip
+import Aiorpcx.C04.Loose
 import Aiorpcx.C04.ClassifyProofs
 import Aiorpcx.Facts.C04
 /-!
@@ -135,11 +136,11 @@ theorem loose_agrees_v1 (m : Str) (xs : List J) (rid : J) :
   refine ⟨?_, ⟨_, rfl, by codec_simp []⟩, ?_, ?_⟩
   · intro hrid
     refine ⟨_, rfl, ?_⟩
-    cases rid <;> simp [ReqId, J.isNumber, J.isStr] at hrid <;> codec_simp []
+    cases rid <;> simp [ReqId, isJsonNumber, J.isStr] at hrid <;> codec_simp []
   · intro v hrid
-    cases rid <;> simp [RespId, J.isNumber, J.isStr, J.isNone] at hrid <;> codec_simp []
+    cases rid <;> simp [RespId, isJsonNumber, J.isStr, J.isNone] at hrid <;> codec_simp []
   · intro code msg hc hrid
-    cases rid <;> simp [RespId, J.isNumber, J.isStr, J.isNone] at hrid <;>
+    cases rid <;> simp [RespId, isJsonNumber, J.isStr, J.isNone] at hrid <;>
       cases code <;> simp [J.isInt] at hc <;> codec_simp []
 
 /-- outside that id range the two differ: a 1.0 request with a list id is a request to 1.0 and
@@ -226,7 +227,7 @@ theorem autodetect_first_message_v1 (m : Str) (xs : List J) (rid : J) :
   refine ⟨?_, ⟨_, rfl, by codec_simp []⟩, ?_, ?_⟩
   · intro hrid
     refine ⟨_, rfl, ?_⟩
-    cases rid <;> simp [ReqId, J.isNumber, J.isStr] at hrid <;> codec_simp []
+    cases rid <;> simp [ReqId, isJsonNumber, J.isStr] at hrid <;> codec_simp []
   · intro v; codec_simp []
   · intro c msg; codec_simp []
 
@@ -470,10 +471,13 @@ theorem null_id_is_notification :
     payloadToItem .v2 (.obj [(kJsonrpc, s20), (kMethod, .str (lit "m")), (kId, .null)])
       = .ok (.notification (lit "m") (.arr []), .null) := by decide
 
-/-- F7 (owned by C01): as the code stands, `"id": true` is accepted by 2.0 and Loose -/
-theorem bool_id_accepted_as_is :
-    payloadToItem .v2 (.obj [(kJsonrpc, s20), (kResult, .int 7), (kId, .bool true)])
-      = .ok (.response (.result (.int 7)), .bool true) := by decide
+/-- F7 (repaired in /repo): `"id": true` is refused by 2.0 and Loose; 1.0 does not constrain ids -/
+theorem bool_id_refused :
+    outClass (payloadToItem .v2 (.obj [(kJsonrpc, s20), (kResult, .int 7), (kId, .bool true)])) = IR
+    ∧ outClass (payloadToItem .loose (.obj [(kResult, .int 7), (kId, .bool false)])) = IR
+    ∧ payloadToItem .v1 (.obj [(kResult, .int 7), (kError, .null), (kId, .bool true)])
+        = .ok (.response (.result (.int 7)), .bool true) := by
+  refine ⟨by decide, by decide, by decide⟩
 
 /-- ids `1` and `1.0` are different JSON values and both survive unchanged (matching against the
 outstanding request is C01's business) -/
